@@ -290,33 +290,33 @@ func (p *ParserZH) setStmtCurrentLine(s syntax.Statement, tk *syntax.Token) {
 
 // wrap 0x2250 InvalidSyntaxCurr - with current token's startIdx
 func (p *ParserZH) getInvalidSyntaxCurr() error {
-	startIdx := p.TokenP1.StartIdx
-	return zerr.InvalidSyntax(startIdx)
+	return zerr.InvalidSyntax(p.currStartIdx())
 }
 
 func (p *ParserZH) getInvalidSyntaxPeek() error {
-	startIdx := p.TokenP1.StartIdx
-	if p.TokenP2 != nil {
-		startIdx = p.TokenP2.StartIdx
-	}
-
-	return zerr.InvalidSyntax(startIdx)
+	return zerr.InvalidSyntax(p.peekStartIdx())
 }
 
 func (p *ParserZH) getUnexpectedIndentPeek() error {
-	startIdx := p.TokenP1.StartIdx
-	if p.TokenP2 != nil {
-		startIdx = p.TokenP2.StartIdx
-	}
-
-	return zerr.UnexpectedIndent(startIdx)
+	return zerr.UnexpectedIndent(p.peekStartIdx())
 }
 
 func (p *ParserZH) getExprMustTypeIDPeek() error {
-	startIdx := p.TokenP1.StartIdx
-	if p.TokenP2 != nil {
-		startIdx = p.TokenP2.StartIdx
-	}
+	return zerr.ExprMustTypeID(p.peekStartIdx())
+}
 
-	return zerr.ExprMustTypeID(startIdx)
+// currStartIdx - start index of current token (0 when no token has been consumed yet)
+func (p *ParserZH) currStartIdx() int {
+	if p.TokenP1 != nil {
+		return p.TokenP1.StartIdx
+	}
+	return 0
+}
+
+// peekStartIdx - start index of peek token; fallback to current token
+func (p *ParserZH) peekStartIdx() int {
+	if p.TokenP2 != nil {
+		return p.TokenP2.StartIdx
+	}
+	return p.currStartIdx()
 }
